@@ -210,13 +210,19 @@ func c01Run(run *ev.Run) {
 		t0 := time.Now()
 		o := c01Opts(run.Tier, spec)
 		if run.Tier == "thorough" {
-			// pass 1: depth 6 with single deviations; pass 2 (below): depth 4 with pairs of deviations
+			// pass 1: depth 6 with single deviations (Redis command faults: at depth 5, below); pass 2: depth 4 with pairs
 			o.MaxDev, o.Pairs = 1, false
+			if !spec.Shapes && spec.Abs == 0 && spec.Replicas == 0 {
+				o.RedisFaults = false
+			}
 		}
 		m := o.model(c01Monitor(run, spec))
 		m.MaxDepth = depth
 		if spec.Shapes {
 			m.MaxDepth = depth + 1
+		}
+		if run.Tier == "thorough" && (spec.Abs > 0 || spec.Replicas > 0) {
+			m.MaxDepth = depth - 1 // (with environment faults, which the quick tier leaves out for these specs)
 		}
 		if run.Tier == "thorough" || (spec.Abs == 0 && spec.Replicas == 0 && !spec.Shapes) {
 			// the two big searches fill their time budget; the merge check runs on the expiry and replica specs here, and
@@ -224,9 +230,21 @@ func c01Run(run *ev.Run) {
 			m.CheckMerges = -1
 		}
 		st := seqx.Explore(run, m)
+		if run.Tier == "thorough" && spec.Store == "redis" && !spec.Shapes && spec.Abs == 0 && spec.Replicas == 0 {
+			// every single Redis command of a check failing before / after the server executed it: as in the quick tier
+			m1 := c01Opts("quick", spec).model(c01Monitor(run, spec))
+			m1.MaxDepth = depth - 1
+			st1 := seqx.Explore(run, m1)
+			st.States += st1.States
+			st.Transitions += st1.Transitions
+			st.Histories += st1.Histories
+			st.Replayed += st1.Replayed
+			st.Complete = st.Complete && st1.Complete
+		}
 		if run.Tier == "thorough" && !spec.Shapes && spec.Abs == 0 && spec.Replicas == 0 {
 			o2 := c01Opts(run.Tier, spec)
 			o2.MaxSessions = 3
+			o2.RedisFaults = false
 			m2 := o2.model(c01Monitor(run, spec))
 			m2.MaxDepth = 4
 			st2 := seqx.Explore(run, m2)
@@ -249,6 +267,36 @@ func c01Run(run *ev.Run) {
 		name := fmt.Sprintf("%s_fwd=%v_abs=%d_idle=%d_replicas=%d_shapes=%v", spec.Store, spec.Forward, spec.Abs, spec.Idle, spec.Replicas, spec.Shapes)
 		run.Extra["levels_"+name] = st.LevelSizes
 		run.Extra["wall_s_"+name] = int(time.Since(t0).Seconds())
+	}
+	// as assembled at start-up: two filters with the SAME cookie name on different session stores (two databases of
+	// one Redis server; two servers): a session established at one is an unknown session at the other - never OK
+	for _, layout := range [][2]string{{"r1/0", "r1/1"}, {"r1", "r2"}, {"r1/2", "r1"}} {
+		a := world.FilterSpec{Name: "a", Realm: "idp-a.test", ClientID: "client-a", Secret: "sa", Redis: layout[0], Forward: true}
+		b := world.FilterSpec{Name: "b", Realm: "idp-b.test", ClientID: "client-b", Secret: "sb", Redis: layout[1], Forward: true}
+		for _, order := range [][2]world.FilterSpec{{a, b}, {b, a}} {
+			sw, err := world.NewSWorld([]world.FilterSpec{order[0], order[1]}, nil)
+			if err != nil {
+				run.HarnessError("C01 start-up pair: " + err.Error())
+				break
+			}
+			for _, at := range []int{0, 1} {
+				sid, name, err := sw.Login(order[at])
+				if err != nil {
+					run.HarnessError("C01 start-up pair login: " + err.Error())
+					break
+				}
+				other := order[1-at]
+				r := sw.Do(world.SReq{Tenant: other.Name, Path: "/" + other.Name + "/app", Cookies: map[string]string{name: sid}})
+				total.Transitions++
+				run.Class(fmt.Sprintf("startup-pair|stores=%s,%s|ok=%v", layout[0], layout[1], r.OK))
+				if r.OK {
+					run.Violation("C01 unjustified-OK session-of-another-store store=redis server-pair",
+						fmt.Sprintf("filters %s (%s) and %s (%s), configured in this order: a session established at %s is answered OK by %s, whose configured store never held it",
+							order[0].Name, order[0].Redis, order[1].Name, order[1].Redis, order[at].Name, other.Name), map[string]any{"level": "server-pair", "filters": order})
+				}
+			}
+			sw.Close()
+		}
 	}
 	run.States, run.Transitions, run.Traces, run.Evals = total.States, total.Transitions, total.Histories, total.Transitions
 	run.Extra["replayed_events"] = total.Replayed
